@@ -1,6 +1,8 @@
 import Rtsp.Props.C07
 #print axioms Rtsp.Codec.Ac3.c07_flush
 #print axioms Rtsp.Codec.Ac3.c07_resync
+#print axioms Rtsp.Codec.Mpeg1Audio.c07_flush
+#print axioms Rtsp.Codec.Mpeg1Audio.c07_resync
 #print axioms Rtsp.Codec.Vp8.c07_flush
 #print axioms Rtsp.Codec.Vp8.c07_resync
 #print axioms Rtsp.Codec.Vp9.c07_flush
